@@ -23,14 +23,15 @@ STATE = {"dir": None, "index": {}, "delays": {}, "seq": 0}
 
 
 def summary(pinsn):
-    """outcome summary of a ParsedInsn: equal summaries <=> same exception name / same trees"""
-    if pinsn.exception is not None:
-        return "err:%s:trees=%d" % (pinsn.exception.name, len(pinsn.asts))
+    """outcome of a ParsedInsn as [kind, number of trees, detail]: kind "ok"/"err"; detail = hash of the
+    trees or the exception name; equal summaries <=> same exception name / same trees"""
     h = hashlib.sha1()
     for t in pinsn.asts:
         h.update(t.pretty().encode())
         h.update(b"|")
-    return "ok:%d:%s" % (len(pinsn.asts), h.hexdigest()[:16])
+    if pinsn.exception is not None:
+        return ["err", len(pinsn.asts), pinsn.exception.name]
+    return ["ok", len(pinsn.asts), h.hexdigest()[:16]]
 
 
 def log_event(ev):
@@ -48,11 +49,11 @@ def wrapped_parse_single(bundle):
     try:
         res = ORIG_PARSE_SINGLE(bundle)
     except BaseException as e:  # parse_single is specified never to raise
-        log_event(["F", t, "raised:" + type(e).__name__])
+        log_event(["F", t, ["raised", 0, type(e).__name__]])
         raise
     outs = [summary(v) for v in res.values()]
     keys = list(res.keys())
-    out = outs[0] if (len(outs) == 1 and keys == [bundle.name]) else "badkeys:%s" % keys
+    out = outs[0] if (len(outs) == 1 and keys == [bundle.name]) else ["badkeys", 0, str(keys)]
     log_event(["F", t, out])
     return res
 
@@ -105,8 +106,9 @@ def run_scenario(sc):
         if n in result:
             v = result[n]
             ok_name = getattr(v, "name", None) == n and list(getattr(v, "behaviors", [])) == list(beh[n])
-            res_list.append(summary(v) if ok_name else "wrongentry:" + summary(v))
-    return {"id": sc["id"], "seq": seq, "procs": procs or [[]], "parent": parent, "result": res_list,
+            res_list.append(summary(v) if ok_name else ["wrongentry", 0, str(summary(v))])
+    return {"id": sc["id"], "seq": seq, "parts": [len(beh[n]) for n in sc["names"]],
+            "failat": sc.get("failat") or [0] * len(sc["names"]), "procs": procs or [[]], "parent": parent, "result": res_list,
             "extra_keys": extra, "error": err or "", "pool": sc["pool"], "nworkers_seen": len(procs)}
 
 
